@@ -41,6 +41,14 @@ theorem cache_cfg_table :
     (∀ f ∈ BLDFM.Fld.determining, f ∈ cacheCfg.keyFields) ∧ cacheCfg.haloResolvedAtGet = true ∧
     cacheCfg.haloResolvedAtPut = true ∧ cacheCfg.atomicWrite = true ∧ cacheCfg.guardedLoad = true := by decide
 
+/-- C12: the process-global mutable state reachable from a solve is exactly the modelled one
+(config.NUM_THREADS, the FFT-manager singleton, pyfftw's thread setting, numba's thread count, the
+compiled-kernel table); a new module-level memo or a mutable default argument changes this table -/
+theorem global_state_table :
+    globalState = ["config.py:MAX_WORKERS", "config.py:NUM_THREADS", "config.py:OUTPUT_DIR", "config.py:USE_CACHE",
+      "fft_manager.py:_fft_manager", "fft_manager.py:global _fft_manager", "fft_manager.py:writes pyfftw.config.NUM_THREADS",
+      "solver.py:calls set_num_threads", "utils.py:parallelize._compiled closure cell"] := rfl
+
 /-! C13: the keyword → expression tables of `run_bldfm_single` (local names inlined by substitution),
 the level-selection chain, the returned dictionary and `load_config` are the documented ones -/
 
